@@ -7,6 +7,25 @@ NOTE = (
 )
 
 CHECKS = {
+    "C10": {
+        "technique": "history monitor: every call of every history logged at the client boundary "
+        "(result + observable state), judged by bit-identical replay of 'latest simulate + later "
+        "calls' on a fresh object; alphabet enumerated exhaustively up to length 4 / 5",
+        "level_text": "Exhaustive enumeration of the property's alphabet up to a bounded length "
+        "for both reservoir classes, run against the real objects; plus an out-of-alphabet "
+        "extension whose stale-schedule behaviour is known finding K4 (mechanism-keyed).",
+        "design_ref": "DESIGN.md section 3, C10",
+        "level_note": NOTE,
+    },
+    "C17": {
+        "technique": "paired runs on fresh objects under an icontract recording postcondition: bit "
+        "identity on dyadic grids with integer shifts, perturbation bound on general ones; error "
+        "paths; interpolator probes",
+        "level_text": "Runtime monitoring of paired executions over tables, grids, shifts, "
+        "schedule forms and lengths for both reservoir classes.",
+        "design_ref": "DESIGN.md section 3, C17",
+        "level_note": NOTE,
+    },
     "C01": {
         "technique": "icontract recording postcondition on the real simulate methods; offline "
         "oracle over the logged fields: max-principle bounds, x/t monotonicity, comparison-"
